@@ -8,4 +8,6 @@ def classify(w):
             return "abbrev_record_name_rewritten_as_abbr"
         if w.get("edit") == "remove_iiv" and "record $SIGMA" in what and "-> [' $SIGMA" in what:
             return "remove_iiv_adds_leading_space_to_following_record"
+        if w.get("edit") == "remove_iiv" and "cannot be parsed" in what and str(w.get("model", "")).startswith("combo"):
+            return "multi_value_diagonal_omega_record_remove_iiv_unparsable"
     return None
